@@ -227,6 +227,46 @@ async def _message_queue(frames_bytes, waiting):
     return got, failure
 
 
+GLUE_ENDS = (('ws', 'c'), ('ws', 's'), ('aiohttp', 'c'), ('aiohttp', 's'), ('quart', 'c'), ('quart', 's'),
+             ('channels', 'c'), ('channels', 's'))
+
+
+async def _glue_decode(kind, side, bodies):
+    """The messages go through the receive loop of one of the repository's real websocket transports (scripted
+    socket underneath, rv/gluelinks.py) and are read back the way the endpoint's receiver does."""
+    import random
+    from .. import links
+    from rsocket.frame import InvalidFrame
+    link = links.make_link(kind, random.Random(0))
+    t = link.transports[side]
+    if side == 'c':
+        await t.connect()
+    for b in bodies:
+        link.sockets[side].inbox.put_nowait(bytes(b))
+    got = []
+    markers = 0
+    for _ in range(len(bodies) + 2):
+        try:
+            gen = await asyncio.wait_for(t.next_frame_generator(), 1.0)
+        except asyncio.TimeoutError:
+            break
+        async for f in gen:
+            if isinstance(f, InvalidFrame):
+                markers += 1
+            else:
+                got.append(f.serialize())
+    ended = []
+    for name, task in link.tasks.items():
+        if name in ('glue-' + side, 'handler-' + side) and task.done():
+            ended.append((name, 'cancelled' if task.cancelled() else repr(task.exception())))
+    mh = getattr(t, '_message_handler', None)
+    if mh is not None and kind != 'channels' and mh.done():
+        ended.append(('_message_handler', 'cancelled' if mh.cancelled() else repr(mh.exception())))
+    left = link.sockets[side].inbox.qsize()
+    link.stop()
+    return got, markers, ended, left
+
+
 def plan(tier, seed):
     return [('byte-mode', 800 if tier == 'quick' else 9000),
             ('tcp-reader', 400 if tier == 'quick' else 3000),
@@ -369,6 +409,27 @@ def run_case(gen, idx, rng, tier):
                         witnesses.append({'clause': 'frames-queued-before-a-transport-failure-lost',
                                           'detail': dict(ctx, partition='message queue ' + waiting, expected=len(good),
                                                          got=len(got), failure_raised=failure)})
+            # the same messages through the receive loop of a real websocket transport of the repository
+            gk, gside = GLUE_ENDS[(idx * nseq + s) % len(GLUE_ENDS)]
+            if gk == 'channels':
+                # django-channels never delivers an empty binary message to the consumer's receive(bytes_data=...)
+                # as bytes (falsy payloads are dropped by the transport itself): same expectation, nothing comes out
+                pass
+            try:
+                got, markers, ended, left = vloop.run(_glue_decode(gk, gside, bodies))
+                st['glue_transport_runs'] = st.get('glue_transport_runs', 0) + 1
+                st['glue_transport_messages'] = st.get('glue_transport_messages', 0) + len(bodies)
+                good_all = [e for e in expected if e not in (None, 'invalid')]
+                gctx = dict(ctx, partition='transport %s/%s' % (gk, gside))
+                if ended:
+                    witnesses.append({'clause': 'transport-receive-loop-ended', 'detail': dict(gctx, loops=ended)})
+                elif got != good_all or left:
+                    witnesses.append({'clause': 'message-does-not-yield-its-frame',
+                                      'detail': dict(gctx, expected_frames=len(good_all), got=len(got),
+                                                     unread_messages=left, markers=markers)})
+            except Exception as e:
+                witnesses.append({'clause': 'transport-generator-raises',
+                                  'detail': dict(ctx, partition='transport %s/%s' % (gk, gside), error=repr(e))})
             p = FrameParser()
             for i, (kind, body) in enumerate(recs):
                 evals += 1
